@@ -461,7 +461,10 @@ Proof.
   destruct (count_pos_ex (inside k) (pcs s) Hp) as (t & x & Hn & Hx). rewrite (H t x Hn) in Hx. discriminate.
 Qed.
 
-Definition mx_idle (s : mmap) : Prop := Inv s /\ pcs s = [Out].
+Definition mx_idle (s : mmap) : Prop := Inv s /\ pcs s = [Out; Out].
+
+Lemma step2_false s t k : step2 s (t, k, false) = MutexMap.step s (t, k).
+Proof. unfold step2. destruct (nth_error (pcs s) t) as [[]|]; reflexivity. Qed.
 
 Lemma step_out_pcs s t k : nth_error (pcs s) t = Some Out -> exists e, pcs (MutexMap.step s (t, k)) = updl t (Waiting k e) (pcs s).
 Proof. intros H. unfold MutexMap.step. rewrite H. destruct (lookup (tab s) k); eexists; reflexivity. Qed.
@@ -488,22 +491,79 @@ Proof.
   destruct (locked (heap s e)); [reflexivity|cbn in Hp; lia].
 Qed.
 
-Lemma mx_cycle s k : mx_idle s -> mx_idle (exec s [(O, k); (O, k); (O, k); (O, k)]) /\ tab (exec s [(O, k); (O, k); (O, k); (O, k)]) = [].
+(* TryLock on a key nobody holds or waits for succeeds *)
+Lemma try_free_pcs s t k : Inv s -> nth_error (pcs s) t = Some Out -> count (inside k) (pcs s) = 0 ->
+  exists e, pcs (step2 s (t, k, true)) = updl t (Holding k e) (pcs s).
 Proof.
-  intros [I Hp]. cbn [exec fold_left].
-  set (s1 := MutexMap.step s (O, k)). assert (I1 : Inv s1) by (apply step_inv; exact I).
-  destruct (step_out_pcs s O k ltac:(rewrite Hp; reflexivity)) as [e E1]. fold s1 in E1. rewrite Hp in E1. cbn [updl] in E1.
+  intros I H Hc. unfold step2. rewrite H. unfold try_step.
+  destruct (lookup (tab s) k) as [e|] eqn:Hl; [|eexists; reflexivity].
+  destruct (i_cnt s I k e Hl) as [_ Hp]. lia.
+Qed.
+
+(* TryLock on a key that is held fails and changes nothing *)
+Lemma try_taken_noop s t t0 k e : Inv s -> nth_error (pcs s) t = Some Out -> nth_error (pcs s) t0 = Some (Holding k e) ->
+  step2 s (t, k, true) = s.
+Proof.
+  intros I H H0. unfold step2. rewrite H. apply try_fail_noop. unfold try_ok.
+  rewrite (i_ref s I t0 k e (or_intror H0)).
+  assert (Ho : owns e (Holding k e) = true) by (cbn; apply Nat.eqb_refl).
+  pose proof (count_ex_pos _ _ _ _ H0 Ho) as Hp. rewrite (i_own s I e) in Hp.
+  destruct (locked (heap s e)); [reflexivity|cbn in Hp; lia].
+Qed.
+
+Lemma all_out2 (l : list pc) : l = [Out; Out] -> forall t x, nth_error l t = Some x -> x = Out.
+Proof. intros -> [|[|[|t]]] x Hx; cbn in Hx; inversion Hx; reflexivity. Qed.
+
+Lemma mx_cycle s k : mx_idle s -> mx_idle (lock_cycle s k) /\ tab (lock_cycle s k) = [].
+Proof.
+  intros [I Hp]. unfold lock_cycle. cbn [exec2 fold_left].
+  assert (T0 : tab s = []) by (apply inv_all_out_empty; [exact I|apply all_out2; exact Hp]).
+  set (s1 := step2 s (O, k, true)). assert (I1 : Inv s1) by (apply step2_inv; exact I).
+  destruct (try_free_pcs s O k I ltac:(rewrite Hp; reflexivity) ltac:(rewrite Hp; reflexivity)) as [e E1].
+  fold s1 in E1. rewrite Hp in E1. cbn [updl] in E1.
+  rewrite !step2_false.
   set (s2 := MutexMap.step s1 (O, k)). assert (I2 : Inv s2) by (apply step_inv; exact I1).
-  assert (E2 : pcs s2 = [Holding k e]).
-  { unfold s2. rewrite (step_wait_pcs s1 O k k e I1); rewrite E1; reflexivity. }
+  assert (E2 : pcs s2 = [Releasing e; Out]).
+  { unfold s2. rewrite (step_hold_pcs s1 O k k e I1); rewrite E1; reflexivity. }
   set (s3 := MutexMap.step s2 (O, k)). assert (I3 : Inv s3) by (apply step_inv; exact I2).
-  assert (E3 : pcs s3 = [Releasing e]).
-  { unfold s3. rewrite (step_hold_pcs s2 O k k e I2); rewrite E2; reflexivity. }
-  set (s4 := MutexMap.step s3 (O, k)). assert (I4 : Inv s4) by (apply step_inv; exact I3).
-  assert (E4 : pcs s4 = [Out]).
-  { unfold s4. rewrite (step_rel_pcs s3 O k e I3); rewrite E3; reflexivity. }
+  assert (E3 : pcs s3 = [Out; Out]).
+  { unfold s3. rewrite (step_rel_pcs s2 O k e I2); rewrite E2; reflexivity. }
   split; [split; assumption|].
-  apply inv_all_out_empty; [exact I4|]. rewrite E4. intros [|[|t]] x Hx; cbn in Hx; inversion Hx; reflexivity.
+  apply inv_all_out_empty; [exact I3|apply all_out2; exact E3].
+Qed.
+
+(* the contended pair of copies: both handlers leave, nothing stays in the lock map *)
+Lemma mx_cycle_contended s k : mx_idle s -> mx_idle (lock_cycle_contended s k) /\ tab (lock_cycle_contended s k) = [].
+Proof.
+  intros [I Hp]. unfold lock_cycle_contended. cbn [exec2 fold_left].
+  set (s1 := step2 s (0%nat, k, true)). assert (I1 : Inv s1) by (apply step2_inv; exact I).
+  destruct (try_free_pcs s 0%nat k I ltac:(rewrite Hp; reflexivity) ltac:(rewrite Hp; reflexivity)) as [e E1].
+  fold s1 in E1. rewrite Hp in E1. cbn [updl] in E1.
+  (* the copy's TryLock fails *)
+  rewrite (try_taken_noop s1 1%nat 0%nat k e I1) by (rewrite E1; reflexivity).
+  rewrite !step2_false.
+  (* ... it enters Lock and waits *)
+  set (s2 := MutexMap.step s1 (1%nat, k)). assert (I2 : Inv s2) by (apply step_inv; exact I1).
+  destruct (step_out_pcs s1 1%nat k ltac:(rewrite E1; reflexivity)) as [e' E2]. fold s2 in E2. rewrite E1 in E2. cbn [updl] in E2.
+  (* the first handler unlocks *)
+  set (s3 := MutexMap.step s2 (0%nat, k)). assert (I3 : Inv s3) by (apply step_inv; exact I2).
+  assert (E3 : pcs s3 = [Releasing e; Waiting k e']).
+  { unfold s3. rewrite (step_hold_pcs s2 0%nat k k e I2); rewrite E2; reflexivity. }
+  set (s4 := MutexMap.step s3 (0%nat, k)). assert (I4 : Inv s4) by (apply step_inv; exact I3).
+  assert (E4 : pcs s4 = [Out; Waiting k e']).
+  { unfold s4. rewrite (step_rel_pcs s3 0%nat k e I3); rewrite E3; reflexivity. }
+  (* the copy acquires, is answered from the cache, unlocks *)
+  set (s5 := MutexMap.step s4 (1%nat, k)). assert (I5 : Inv s5) by (apply step_inv; exact I4).
+  assert (E5 : pcs s5 = [Out; Holding k e']).
+  { unfold s5. rewrite (step_wait_pcs s4 1%nat k k e' I4); rewrite E4; reflexivity. }
+  set (s6 := MutexMap.step s5 (1%nat, k)). assert (I6 : Inv s6) by (apply step_inv; exact I5).
+  assert (E6 : pcs s6 = [Out; Releasing e']).
+  { unfold s6. rewrite (step_hold_pcs s5 1%nat k k e' I5); rewrite E5; reflexivity. }
+  set (s7 := MutexMap.step s6 (1%nat, k)). assert (I7 : Inv s7) by (apply step_inv; exact I6).
+  assert (E7 : pcs s7 = [Out; Out]).
+  { unfold s7. rewrite (step_rel_pcs s6 1%nat k e' I6); rewrite E6; reflexivity. }
+  split; [split; assumption|].
+  apply inv_all_out_empty; [exact I7|apply all_out2; exact E7].
 Qed.
 
 (* ================================================================== *)
@@ -799,8 +859,15 @@ Proof.
   intros I He. destruct e; try rewrite step_tickw; cbn [Model.step ev_ok] in *.
   - (* EIn *)
     destruct (ci_mx s I) as [Hidle _]. destruct (mx_cycle (mx s) mid Hidle) as [H1 H2].
+    destruct (locks_mid typ).
+    + constructor; simp; try apply I; [|split; assumption].
+      apply DP.step_all_bounded; [apply I|unfold DP.age_ok; cbn [DP.age_of]; lia].
+    + constructor; simp; try apply I.
+      apply DP.step_all_bounded; [apply I|unfold DP.age_ok; cbn [DP.age_of]; lia].
+  - (* EInCont *)
+    destruct (ci_mx s I) as [Hidle _]. destruct (mx_cycle_contended (mx s) mid Hidle) as [H1 H2].
     constructor; simp; try apply I; [|split; assumption].
-    apply DP.step_all_bounded; [apply I|unfold DP.age_ok; cbn [DP.age_of]; lia].
+    apply DP.step_all_bounded; [apply DP.step_all_bounded; [apply I|]|]; unfold DP.age_ok; cbn [DP.age_of]; lia.
   - constructor; simp; try apply I; [apply pend_owned_step; apply I|apply tok_owned_step; apply I].
   - constructor; simp; try apply I; [apply pend_owned_step; apply I|do 2 apply tok_owned_step; apply I].
   - constructor; simp; try apply I. apply pend_owned_step; apply I.
